@@ -344,7 +344,8 @@ fn run(ctx: &mut Ctx, si: usize, case: u64) {
             let enc = Enc::ALL[(case % 4) as usize];
             let es = entsize_of(ty, enc);
             ctx.sample(|| format!("{} {}: every byte length 0..={} (k=0..4 whole entries plus every partial tail), fixed and run-time endian spec", TYPE_NAMES[ty as usize], enc.name(), 5 * es - 1));
-            for len in 0..5 * es {
+            let top = if ctx.tier == Tier::Miri { 2 * es } else { 5 * es };
+            for len in 0..top {
                 // per-byte distinct content so that entries differ and swapped fields show
                 let bytes: Vec<u8> = (0..len).map(|i| (i as u8).wrapping_mul(29).wrapping_add(len as u8 ^ 0x5a)).collect();
                 dispatch(ctx, ty, enc, &bytes, false);
